@@ -12,6 +12,18 @@
 //! hold-for-duration with very small durations and activations that arrive together with other
 //! events in one millisecond or in front of an undecided tap-hold, where the countdown can end
 //! before the queued press of the virtual key has been processed.
+//!
+//! Two dimensions of the timed forms:
+//! * hold-for-duration with TWO actions of different durations L > S on the same virtual key (timed
+//!   part and queued part): the key goes up S (resp. L) after the LATEST activation, whichever
+//!   action made it, in both orders and - in the sweep scenarios - at every distance between the two
+//!   activations from 2 to L+3 ticks.
+//! * on-idle measured from EVERY input event: press, release and OS repeat of keys whose held state
+//!   is not a normal key (the on-idle key itself, a layer-while-held key, a no-op key, a key with
+//!   only a custom action), held 1 .. D-2 ticks (or longer with OS repeats arriving more often than
+//!   every D), with every millisecond driven in the order of the real processing loop (blocking
+//!   predicate, event, tick - the order in which nothing but the event itself restarts the idle
+//!   count at a release) as well as in the order predicate-between-event-and-tick.
 
 use crate::core::sim::{code_name, osc, render_hist, Ev, OutKind, Sim};
 use crate::core::{CaseOut, Check, Ctx};
@@ -434,15 +446,55 @@ enum QE {
     /// the same action, 2 = the plain probe key)
     P(u8),
     R(u8),
+    /// OS auto-repeat of the held physical key k (an input event that is not queued)
+    Rep(u8),
     VPress,
     VRelease,
+    /// press / release of the second virtual key (on-idle scenarios whose second key is
+    /// `(on-release tap-vkey k2)`)
+    V2Press,
+    V2Release,
+}
+
+/// Order of the two things the processing loop does before the tick of one iteration.
+#[derive(Clone, Copy, PartialEq, Eq, Debug)]
+enum Order {
+    /// the event was handled while the loop was spinning (less than 1 ms since the last tick), so the
+    /// blocking predicate is consulted once more between the event and the tick that consumes it
+    EventFirst,
+    /// the usual iteration of `start_processing_loop`: blocking predicate, `try_recv` + event
+    /// handling, tick, sleep 1 ms
+    PredFirst,
+}
+
+/// What the second key (index 1) of an on-idle configuration is.
+#[derive(Clone, Copy, PartialEq, Eq, Debug)]
+enum Second {
+    /// the same on-idle action as key 0
+    Same,
+    /// `(layer-while-held nav)`: held state is a layer, not a key
+    Layer,
+    /// `XX`: no held state at all
+    NoOp,
+    /// `(on-release tap-vkey k2)`: held state is a custom action; its release taps a second virtual key
+    RelTap,
+}
+impl Second {
+    fn name(self) -> &'static str {
+        match self {
+            Second::Same => "on_idle_key",
+            Second::Layer => "layer_while_held_key",
+            Second::NoOp => "no_op_key",
+            Second::RelTap => "custom_action_key",
+        }
+    }
 }
 
 #[derive(Clone, Debug, PartialEq, Eq)]
 struct TOut {
     at: u64,
     down: bool,
-    /// 0 = virtual key's output, 1 = probe key
+    /// 0 = virtual key's output, 1 = probe key, 2 = second virtual key's output
     key: u8,
 }
 
@@ -450,18 +502,35 @@ struct TOut {
 struct TStats {
     rearms: u64,
     episodes: u64,
+    /// re-arm by a key whose duration differs from the one of the previous activation
+    rearms_other_duration: u64,
+    /// re-arm with a duration smaller than the time that was still left (the release moves earlier)
+    rearms_shortening: u64,
+    /// re-arm with a duration larger than the time that was still left
+    rearms_lengthening: u64,
     idle_firings: u64,
     idle_prevented: u64,
+    /// a running idle count (> 0, on-idle pending) restarted by: the release of a key whose held
+    /// state is not a normal key / the press of such a key / an OS repeat
+    idle_restart_release_non_normal: u64,
+    /// ... of these, releases of the second key
+    idle_restart_release_second: u64,
+    idle_restart_press_non_normal: u64,
+    idle_restart_repeat: u64,
+    /// firings whose last preceding input event was the release of a non-normal key held >= 4 ticks
+    idle_firings_after_held_non_normal_release: u64,
 }
 
-/// hold-for-duration model. `evs`: (arrival tick, event). Keys 0 and 1 both carry
-/// `(hold-for-duration D v)`, key 2 is a plain key.
-fn model_hfd(d: u64, evs: &[(u64, QE)], horizon: u64) -> (Vec<TOut>, TStats) {
+/// hold-for-duration model. `evs`: (arrival tick, event). Key 0 carries
+/// `(hold-for-duration d[0] v)`, key 1 `(hold-for-duration d[1] v)` (same virtual key), key 2 is a
+/// plain key. The key goes up d[k] after the latest activation, k being the key that made it.
+fn model_hfd(d: [u64; 2], evs: &[(u64, QE)], horizon: u64) -> (Vec<TOut>, TStats) {
     let mut outs = vec![];
     let mut st = TStats::default();
     let mut q: VecDeque<QE> = VecDeque::new();
     let mut next = 0;
     let mut deadline: Option<u64> = None;
+    let mut last_d = 0u64;
     for tick in 1..=horizon {
         while next < evs.len() && evs[next].0 < tick {
             q.push_back(evs[next].1);
@@ -471,20 +540,32 @@ fn model_hfd(d: u64, evs: &[(u64, QE)], horizon: u64) -> (Vec<TOut>, TStats) {
             match e {
                 QE::P(2) => outs.push(TOut { at: tick, down: true, key: 1 }),
                 QE::R(2) => outs.push(TOut { at: tick, down: false, key: 1 }),
-                QE::P(_) => match deadline {
-                    Some(_) => {
-                        deadline = Some(d);
-                        st.rearms += 1;
+                QE::P(k) => {
+                    let nd = d[(k & 1) as usize];
+                    match deadline {
+                        Some(left) => {
+                            st.rearms += 1;
+                            if nd != last_d {
+                                st.rearms_other_duration += 1;
+                            }
+                            if nd < left {
+                                st.rearms_shortening += 1;
+                            } else if nd > left {
+                                st.rearms_lengthening += 1;
+                            }
+                            deadline = Some(nd);
+                        }
+                        None => {
+                            q.push_back(QE::VPress);
+                            deadline = Some(nd);
+                            st.episodes += 1;
+                        }
                     }
-                    None => {
-                        q.push_back(QE::VPress);
-                        deadline = Some(d);
-                        st.episodes += 1;
-                    }
-                },
-                QE::R(_) => {}
+                    last_d = nd;
+                }
                 QE::VPress => outs.push(TOut { at: tick, down: true, key: 0 }),
                 QE::VRelease => outs.push(TOut { at: tick, down: false, key: 0 }),
+                _ => {}
             }
         }
         if let Some(x) = deadline {
@@ -500,61 +581,120 @@ fn model_hfd(d: u64, evs: &[(u64, QE)], horizon: u64) -> (Vec<TOut>, TStats) {
     (outs, st)
 }
 
-/// on-idle model (tap action). Key 0 carries `(on-idle D tap-vkey v)`, key 2 is a plain key.
-/// Each loop iteration: the idle counter advances if kanata is idle (nothing queued, no key down),
-/// any input resets it; it fires in the tick the counter has reached D.
-fn model_idle(d: u64, evs: &[(u64, QE)], horizon: u64) -> (Vec<TOut>, TStats) {
+/// on-idle model (tap action). Key 0 carries `(on-idle D tap-vkey v)`, key 1 is what `second`
+/// says, key 2 is a plain key. One loop iteration per tick: the idle count advances if kanata is
+/// idle at the blocking predicate (nothing queued, no output key down), EVERY input event (press,
+/// release, OS repeat; of whatever key) restarts it; the action fires in the tick in which the count
+/// has reached D. `order` says whether the iteration's event is handled before or after the
+/// predicate is consulted. A held key whose held state is not a key (the on-idle key itself, a
+/// layer-while-held key, a no-op key, a key with only custom actions) does not make kanata busy by
+/// itself; the scenarios keep such holds shorter than D (or interrupted by OS repeats more often
+/// than every D), so that reading it the other way gives the same expectation.
+fn model_idle(d: u64, evs: &[(u64, QE)], horizon: u64, order: Order, second: Second) -> (Vec<TOut>, TStats) {
     let mut outs = vec![];
     let mut st = TStats::default();
     let mut q: VecDeque<QE> = VecDeque::new();
     let mut next = 0;
     let mut armed = false;
     let mut counter = 0u64;
-    let mut down = [false; 4];
+    // output keys that are down: plain key, virtual key 1, virtual key 2
+    let mut down = [false; 3];
     let mut was_counting = false;
+    // physical keys: tick of the press
+    let mut pressed_at = [0u64; 3];
+    // last input event: (was the release of a non-normal key held for at least 4 ticks)
+    let mut last_input_held_release = false;
+    let non_normal = |k: u8| k != 2;
     for tick in 1..=horizon {
+        let predicate = |q: &VecDeque<QE>, down: &[bool; 3], counter: &mut u64, was_counting: &mut bool| {
+            let idle = q.is_empty() && !down.iter().any(|x| *x);
+            if !idle {
+                *counter = 0;
+            } else if armed {
+                *counter += 1;
+                *was_counting = true;
+            }
+        };
+        if order == Order::PredFirst {
+            predicate(&q, &down, &mut counter, &mut was_counting);
+        }
         while next < evs.len() && evs[next].0 < tick {
-            q.push_back(evs[next].1);
+            let e = evs[next].1;
             next += 1;
             if armed && was_counting {
                 st.idle_prevented += 1;
                 was_counting = false;
             }
+            if armed && counter > 0 {
+                match e {
+                    QE::R(k) if non_normal(k) => {
+                        st.idle_restart_release_non_normal += 1;
+                        if k == 1 {
+                            st.idle_restart_release_second += 1;
+                        }
+                    }
+                    QE::P(k) if non_normal(k) => st.idle_restart_press_non_normal += 1,
+                    QE::Rep(_) => st.idle_restart_repeat += 1,
+                    _ => {}
+                }
+            }
+            last_input_held_release = false;
+            match e {
+                QE::Rep(_) => {}
+                QE::P(k) => {
+                    pressed_at[k as usize % 3] = evs[next - 1].0;
+                    q.push_back(e);
+                }
+                QE::R(k) => {
+                    last_input_held_release = non_normal(k) && evs[next - 1].0 - pressed_at[k as usize % 3] >= 4;
+                    q.push_back(e);
+                }
+                _ => q.push_back(e),
+            }
             counter = 0;
         }
-        // the loop consults the blocking predicate before every tick
-        let idle = q.is_empty() && !down.iter().any(|x| *x);
-        if !idle {
-            counter = 0;
-        } else if armed {
-            counter += 1;
-            was_counting = true;
+        if order == Order::EventFirst {
+            predicate(&q, &down, &mut counter, &mut was_counting);
         }
         if let Some(e) = q.pop_front() {
             match e {
                 QE::P(2) => {
-                    down[2] = true;
+                    down[0] = true;
                     outs.push(TOut { at: tick, down: true, key: 1 });
                 }
                 QE::R(2) => {
-                    down[2] = false;
+                    down[0] = false;
                     outs.push(TOut { at: tick, down: false, key: 1 });
                 }
                 QE::P(k) => {
-                    // the on-idle key itself holds a (custom) state while it is down
-                    down[k as usize] = true;
-                    armed = true;
-                    counter = 0;
+                    if k == 0 || second == Second::Same {
+                        armed = true;
+                        counter = 0;
+                    }
                 }
-                QE::R(k) => down[k as usize] = false,
+                QE::R(k) => {
+                    if k == 1 && second == Second::RelTap {
+                        q.push_back(QE::V2Press);
+                        q.push_back(QE::V2Release);
+                    }
+                }
                 QE::VPress => {
-                    down[3] = true;
+                    down[1] = true;
                     outs.push(TOut { at: tick, down: true, key: 0 });
                 }
                 QE::VRelease => {
-                    down[3] = false;
+                    down[1] = false;
                     outs.push(TOut { at: tick, down: false, key: 0 });
                 }
+                QE::V2Press => {
+                    down[2] = true;
+                    outs.push(TOut { at: tick, down: true, key: 2 });
+                }
+                QE::V2Release => {
+                    down[2] = false;
+                    outs.push(TOut { at: tick, down: false, key: 2 });
+                }
+                QE::Rep(_) => {}
             }
         }
         if armed && counter >= d {
@@ -563,6 +703,9 @@ fn model_idle(d: u64, evs: &[(u64, QE)], horizon: u64) -> (Vec<TOut>, TStats) {
             armed = false;
             was_counting = false;
             st.idle_firings += 1;
+            if last_input_held_release {
+                st.idle_firings_after_held_non_normal_release += 1;
+            }
         }
     }
     (outs, st)
@@ -573,12 +716,28 @@ struct ConfT {
     idle: bool,
     d: u32,
     legacy: bool,
+    /// hold-for-duration: duration of the action on the second key (same virtual key)
+    d2: u32,
+    /// on-idle: how one loop iteration is driven
+    order: Order,
+    /// on-idle: what the second key is
+    second: Second,
 }
 const TKEYS: [&str; 3] = ["h", "j", "z"];
+const T_VK2_OUT: &str = "2";
 
 impl ConfT {
+    fn hfd(d: u32, d2: u32) -> ConfT {
+        ConfT { idle: false, d, legacy: false, d2, order: Order::EventFirst, second: Second::Same }
+    }
+    fn on_idle(d: u32, legacy: bool, order: Order, second: Second) -> ConfT {
+        ConfT { idle: true, d, legacy, d2: d, order, second }
+    }
+    fn mixed(&self) -> bool {
+        !self.idle && self.d != self.d2
+    }
     fn text(&self) -> String {
-        let act = if self.idle {
+        let act0 = if self.idle {
             if self.legacy {
                 format!("(on-idle-fakekey k1 tap {})", self.d)
             } else {
@@ -587,8 +746,20 @@ impl ConfT {
         } else {
             format!("(hold-for-duration {} k1)", self.d)
         };
+        let act1 = if !self.idle {
+            format!("(hold-for-duration {} k1)", self.d2)
+        } else {
+            match self.second {
+                Second::Same => act0.clone(),
+                Second::Layer => "(layer-while-held nav)".into(),
+                Second::NoOp => "XX".into(),
+                Second::RelTap => "(on-release tap-vkey k2)".into(),
+            }
+        };
+        let vk2 = if self.idle && self.second == Second::RelTap { format!(" k2 {T_VK2_OUT}") } else { String::new() };
+        let nav = if self.idle && self.second == Second::Layer { format!("(deflayer nav _ _ {})\n", TKEYS[2]) } else { String::new() };
         format!(
-            "(defcfg process-unmapped-keys yes)\n(defsrc {} {} {})\n({} k1 1)\n(deflayer base {act} {act} {})\n",
+            "(defcfg process-unmapped-keys yes)\n(defsrc {} {} {})\n({} k1 1{vk2})\n(deflayer base {act0} {act1} {})\n{nav}",
             TKEYS[0],
             TKEYS[1],
             TKEYS[2],
@@ -597,29 +768,101 @@ impl ConfT {
         )
     }
     fn label(&self) -> String {
-        format!("{}|D{}{}", if self.idle { "on-idle" } else { "hold-for-duration" }, self.d, if self.legacy { "|legacy" } else { "" })
+        if self.idle {
+            format!("on-idle|D{}{}|{:?}|second={:?}", self.d, if self.legacy { "|legacy" } else { "" }, self.order, self.second)
+        } else if self.mixed() {
+            format!("hold-for-duration|D{}+D{}", self.d, self.d2)
+        } else {
+            format!("hold-for-duration|D{}", self.d)
+        }
     }
 }
 
 fn configs_t() -> Vec<ConfT> {
-    vec![
-        ConfT { idle: false, d: 10, legacy: false },
-        ConfT { idle: false, d: 40, legacy: false },
-        ConfT { idle: true, d: 10, legacy: false },
-        ConfT { idle: true, d: 40, legacy: false },
-        ConfT { idle: true, d: 10, legacy: true },
-    ]
+    let mut v = vec![
+        ConfT::hfd(10, 10),
+        ConfT::hfd(40, 40),
+        // two actions with different durations on the same virtual key, both orders of long / short
+        ConfT::hfd(40, 10),
+        ConfT::hfd(10, 40),
+        ConfT::hfd(15, 12),
+    ];
+    for order in [Order::EventFirst, Order::PredFirst] {
+        for second in [Second::Same, Second::Layer, Second::NoOp, Second::RelTap] {
+            v.push(ConfT::on_idle(10, false, order, second));
+        }
+        v.push(ConfT::on_idle(40, false, order, Second::Same));
+        v.push(ConfT::on_idle(10, true, order, Second::Same));
+    }
+    v.push(ConfT::on_idle(40, false, Order::PredFirst, Second::Layer));
+    v
+}
+
+/// dimensions of the tap scenarios of one timed configuration: (gaps, number of hold options,
+/// number of hold options of the first activation)
+fn timed_dims(c: &ConfT) -> (Vec<u64>, u64, u64) {
+    let d = c.d as u64;
+    if c.idle {
+        (vec![3, d - 1, d, d + 1, d + 2, 2 * d + 5], 5, 2)
+    } else if c.mixed() {
+        let d2 = c.d2 as u64;
+        let (s, l) = (d.min(d2), d.max(d2));
+        let mut g = vec![2, 3, 2 * l];
+        for x in [s, l] {
+            g.extend([x - 2, x - 1, x, x + 1, x + 2]);
+        }
+        g.extend([l - s - 1, l - s, l - s + 1]);
+        g.retain(|x| *x >= 2);
+        g.sort();
+        g.dedup();
+        (g, 2, 1)
+    } else {
+        (vec![2, 3, d - 2, d - 1, d, d + 1, d + 2, 2 * d], 2, 1)
+    }
+}
+
+/// on-idle hold options: (hold length, distance of OS repeat events or 0). The last option is a
+/// hold longer than 2 D; a key that is not a normal key gets OS repeats every D/2 during it.
+fn idle_hold(d: u64, opt: u64, k: u8) -> (u64, u64) {
+    match opt {
+        0 => (1, 0),
+        1 => (4, 0),
+        2 => (d / 2, 0),
+        3 => (d - 2, 0),
+        _ => (2 * d + 3, if k == 2 { 0 } else { d / 2 }),
+    }
+}
+
+fn push_tap(evs: &mut Vec<(u64, QE)>, t: u64, k: u8, hold: u64, rep: u64) {
+    evs.push((t, QE::P(k)));
+    if rep > 0 {
+        let mut r = t + rep;
+        while r < t + hold {
+            evs.push((r, QE::Rep(k)));
+            r += rep;
+        }
+    }
+    evs.push((t + hold, QE::R(k)));
 }
 
 /// Timed scenarios: a first tap of the timed-action key, then up to `n` further taps (of the same
-/// key, of the second key bound to the same action, or of the plain key), each a gap after the
-/// previous one. For hold-for-duration the gaps are press-to-press distances around D; for on-idle
-/// they are distances from the previous release around D.
+/// key, of the second key, or of the plain key), each a gap after the previous one. For
+/// hold-for-duration the gaps are press-to-press distances around the duration(s) (and around their
+/// difference); for on-idle they are distances from the previous release around D, the first tap is
+/// held 1 or D/2 ticks and every further tap 1, 4, D/2, D-2 or 2D+3 ticks (the last with OS repeats
+/// every D/2 for a key that is not a normal key). After these come, for hold-for-duration, the sweep
+/// scenarios of `hfd_sweep`.
 fn timed_scen(c: &ConfT, mut idx: u64, nmax: u32) -> Option<Vec<(u64, QE)>> {
+    let taps = timed_taps_space(c, nmax);
+    if idx >= taps {
+        return if c.idle { None } else { hfd_sweep(c, idx - taps) };
+    }
     let d = c.d as u64;
-    let gaps: Vec<u64> = if c.idle { vec![3, d - 1, d, d + 1, d + 2, 2 * d + 5] } else { vec![2, 3, d - 2, d - 1, d, d + 1, d + 2, 2 * d] };
+    let (gaps, nholds, nfirst) = timed_dims(c);
     let kinds: u64 = 3;
-    let per = gaps.len() as u64 * kinds * 2; // gap x key x hold length
+    let first = idx % nfirst;
+    idx /= nfirst;
+    let per = gaps.len() as u64 * kinds * nholds; // gap x key x hold length
     let mut n = 0;
     loop {
         let b = per.pow(n);
@@ -634,62 +877,123 @@ fn timed_scen(c: &ConfT, mut idx: u64, nmax: u32) -> Option<Vec<(u64, QE)>> {
     }
     let mut evs = vec![];
     let mut t = 0u64;
-    evs.push((t, QE::P(0)));
-    evs.push((t + 1, QE::R(0)));
+    let first_hold = if c.idle { [1, d / 2][first as usize] } else { 1 };
+    push_tap(&mut evs, t, 0, first_hold, 0);
     let mut last_press = 0u64;
-    let mut last_release = 1u64;
+    let mut last_release = first_hold;
     for _ in 0..n {
         let g = gaps[(idx % gaps.len() as u64) as usize];
         idx /= gaps.len() as u64;
         let k = (idx % kinds) as u8;
         idx /= kinds;
-        let hold = [1u64, 4][(idx % 2) as usize];
-        idx /= 2;
+        let ho = idx % nholds;
+        idx /= nholds;
+        let (hold, rep) = if c.idle { idle_hold(d, ho, k) } else { ([1u64, 4][ho as usize], 0) };
         t = if c.idle { last_release + g } else { (last_press + g).max(last_release + 1) };
-        evs.push((t, QE::P(k)));
-        evs.push((t + hold, QE::R(k)));
+        push_tap(&mut evs, t, k, hold, rep);
         last_press = t;
         last_release = t + hold;
     }
     Some(evs)
 }
 
-fn timed_space(c: &ConfT, nmax: u32) -> u64 {
-    let gaps = if c.idle { 6u64 } else { 8 };
-    let per = gaps * 3 * 2;
-    (0..=nmax).map(|n| per.pow(n)).sum()
+fn timed_taps_space(c: &ConfT, nmax: u32) -> u64 {
+    let (gaps, nholds, nfirst) = timed_dims(c);
+    let per = gaps.len() as u64 * 3 * nholds;
+    nfirst * (0..=nmax).map(|n| per.pow(n)).sum::<u64>()
 }
 
-fn run_timed(c: &ConfT, evs: &[(u64, QE)], nm: &(String, String)) -> (Vec<TOut>, Vec<String>, Vec<Ev>, bool) {
+fn hfd_sweep_dims(c: &ConfT) -> (u64, Vec<u64>) {
+    let (s, l) = ((c.d.min(c.d2)) as u64, (c.d.max(c.d2)) as u64);
+    let mut g3 = vec![2, s - 1, s, s + 1, l - 1, l, l + 1];
+    if l > s {
+        g3.extend([l - s - 1, l - s, l - s + 1]);
+    }
+    g3.retain(|x| *x >= 2);
+    g3.sort();
+    g3.dedup();
+    (l + 2, g3)
+}
+
+fn hfd_sweep_space(c: &ConfT) -> u64 {
+    let (m, g3) = hfd_sweep_dims(c);
+    4 * m * (1 + 3 * g3.len() as u64)
+}
+
+/// hold-for-duration sweep: an activation by key a, a second one by key b at EVERY distance from 2
+/// to max(D)+3 ticks, optionally a third tap (either action key or the plain key) at a distance
+/// around the durations and their difference after the second. a, b range over both action keys, so
+/// with two durations L > S on one virtual key every order (L then S, S then L, same twice) is met
+/// at every distance.
+fn hfd_sweep(c: &ConfT, mut idx: u64) -> Option<Vec<(u64, QE)>> {
+    if idx >= hfd_sweep_space(c) {
+        return None;
+    }
+    let (m, g3) = hfd_sweep_dims(c);
+    let a = (idx % 2) as u8;
+    idx /= 2;
+    let b = (idx % 2) as u8;
+    idx /= 2;
+    let g = 2 + idx % m;
+    idx /= m;
+    let mut evs = vec![];
+    push_tap(&mut evs, 0, a, 1, 0);
+    push_tap(&mut evs, g, b, 1, 0);
+    if idx > 0 {
+        let r = idx - 1;
+        let k = (r % 3) as u8;
+        let g2 = g3[(r / 3) as usize];
+        push_tap(&mut evs, g + g2, k, 1, 0);
+    }
+    Some(evs)
+}
+
+fn timed_space(c: &ConfT, nmax: u32) -> u64 {
+    timed_taps_space(c, nmax) + if c.idle { 0 } else { hfd_sweep_space(c) }
+}
+
+fn run_timed(c: &ConfT, evs: &[(u64, QE)], nm: &[String; 3]) -> (Vec<TOut>, Vec<String>, Vec<Ev>, bool) {
     let Ok(mut sim) = Sim::new(&c.text()) else {
         return (vec![], vec!["config rejected".into()], vec![], false);
     };
-    let horizon = evs.last().map(|e| e.0).unwrap_or(0) + 3 * c.d as u64 + 30;
+    let horizon = evs.last().map(|e| e.0).unwrap_or(0) + 3 * c.d.max(c.d2) as u64 + 30;
     let mut hist = vec![];
     let mut next = 0;
     let mut gap = 0u32;
     for tick in 1..=horizon {
+        // one iteration of the processing loop: blocking predicate (advances the idle counter),
+        // event if one is there, tick
+        if c.order == Order::PredFirst {
+            let _ = sim.k.can_block_update_idle_waiting(1);
+        }
         while next < evs.len() && evs[next].0 < tick {
             if gap > 0 {
                 hist.push(Ev::T(gap));
                 gap = 0;
             }
-            let (code, press) = match evs[next].1 {
-                QE::P(k) => (osc(TKEYS[k as usize]), true),
-                QE::R(k) => (osc(TKEYS[k as usize]), false),
-                _ => (0, true),
-            };
-            if press {
-                sim.press(code);
-                hist.push(Ev::P(code));
-            } else {
-                sim.release(code);
-                hist.push(Ev::R(code));
+            match evs[next].1 {
+                QE::P(k) => {
+                    let code = osc(TKEYS[k as usize % 3]);
+                    sim.press(code);
+                    hist.push(Ev::P(code));
+                }
+                QE::R(k) => {
+                    let code = osc(TKEYS[k as usize % 3]);
+                    sim.release(code);
+                    hist.push(Ev::R(code));
+                }
+                QE::Rep(k) => {
+                    let code = osc(TKEYS[k as usize % 3]);
+                    sim.repeat(code);
+                    hist.push(Ev::Rep(code));
+                }
+                _ => {}
             }
             next += 1;
         }
-        // one iteration of the processing loop: blocking predicate (advances the idle counter), tick
-        let _ = sim.k.can_block_update_idle_waiting(1);
+        if c.order == Order::EventFirst {
+            let _ = sim.k.can_block_update_idle_waiting(1);
+        }
         sim.tick();
         gap += 1;
     }
@@ -701,13 +1005,7 @@ fn run_timed(c: &ConfT, evs: &[(u64, QE)], nm: &(String, String)) -> (Vec<TOut>,
         if o.redundant {
             continue;
         }
-        let key = if o.name == nm.0 {
-            0
-        } else if o.name == nm.1 {
-            1
-        } else {
-            9
-        };
+        let key = nm.iter().position(|n| *n == o.name).map(|p| p as u8).unwrap_or(9);
         let down = o.kind == OutKind::Down;
         if !matches!(o.kind, OutKind::Down | OutKind::Up) || o.repress {
             outs.push(TOut { at: o.at, down, key: 9 });
@@ -719,8 +1017,8 @@ fn run_timed(c: &ConfT, evs: &[(u64, QE)], nm: &(String, String)) -> (Vec<TOut>,
     (outs, raw, hist, ok)
 }
 
-fn render_touts(v: &[TOut], nm: &(String, String)) -> Vec<String> {
-    v.iter().map(|o| format!("{}{}@{}", if o.down { "↓" } else { "↑" }, match o.key { 0 => nm.0.as_str(), 1 => nm.1.as_str(), _ => "<unexpected>" }, o.at)).collect()
+fn render_touts(v: &[TOut], nm: &[String; 3]) -> Vec<String> {
+    v.iter().map(|o| format!("{}{}@{}", if o.down { "↓" } else { "↑" }, nm.get(o.key as usize).map(|s| s.as_str()).unwrap_or("<unexpected>"), o.at)).collect()
 }
 
 // ------------------------------------------------------------------------------------------------
@@ -795,27 +1093,35 @@ const B_HOLD_OUT: &str = "y";
 const B_PAUSE: u64 = 5;
 const B_GAPS: [u64; 4] = [0, 1, 2, 7];
 const B_H: u32 = 6;
-const B_DS: [u32; 4] = [1, 2, 3, 5];
+/// (duration on key 0, duration on key 1) of the completely enumerated configurations
+const B_DS: [(u32, u32); 6] = [(1, 1), (2, 2), (3, 3), (5, 5), (5, 2), (2, 5)];
 const B_CHUNK: u64 = 1024;
 
 #[derive(Clone, Debug)]
 struct ConfB {
     d: u32,
+    /// duration of the action on the second key (same virtual key)
+    d2: u32,
     h: u32,
 }
 
 impl ConfB {
     fn text(&self) -> String {
         let act = format!("(hold-for-duration {} k1)", self.d);
+        let act2 = format!("(hold-for-duration {} k1)", self.d2);
         format!(
-            "(defcfg process-unmapped-keys yes)\n(defsrc {})\n(defvirtualkeys k1 1)\n(deflayer base {act} {act} {} (tap-hold 0 {} {B_TAP_OUT} {B_HOLD_OUT}))\n",
+            "(defcfg process-unmapped-keys yes)\n(defsrc {})\n(defvirtualkeys k1 1)\n(deflayer base {act} {act2} {} (tap-hold 0 {} {B_TAP_OUT} {B_HOLD_OUT}))\n",
             BKEYS.join(" "),
             BKEYS[2],
             self.h
         )
     }
     fn label(&self) -> String {
-        format!("hold-for-duration-queued|D{}|H{}", self.d, self.h)
+        if self.d == self.d2 {
+            format!("hold-for-duration-queued|D{}|H{}", self.d, self.h)
+        } else {
+            format!("hold-for-duration-queued|D{}+D{}|H{}", self.d, self.d2, self.h)
+        }
     }
 }
 
@@ -831,6 +1137,9 @@ struct BStats {
     expired_behind_tap_hold: u64,
     /// re-trigger processed while the queued press had not been processed yet
     rearm_before_press: u64,
+    /// re-trigger by the key with the other duration / with a duration below the time still left
+    rearms_other_duration: u64,
+    rearms_shortening: u64,
     tap_hold_taps: u64,
     tap_hold_holds: u64,
     max_backlog: u64,
@@ -841,7 +1150,7 @@ struct BStats {
 /// processing is paused after a tap-hold decision made by an event; the virtual key's press and
 /// release travel through the same queue. Output keys: 0 = virtual key's output, 1 = plain key,
 /// 2 = tap output, 3 = hold output.
-fn model_backlog(d: u64, h: u64, evs: &[(u64, QE)], horizon: u64) -> (Vec<TOut>, BStats) {
+fn model_backlog(d: [u64; 2], h: u64, evs: &[(u64, QE)], horizon: u64) -> (Vec<TOut>, BStats) {
     struct W {
         timeout: u64,
         delay: u64,
@@ -855,6 +1164,7 @@ fn model_backlog(d: u64, h: u64, evs: &[(u64, QE)], horizon: u64) -> (Vec<TOut>,
     let mut pause = 0u64;
     let mut th_down: Option<u8> = None;
     let mut vpress_queued_at: Option<u64> = None;
+    let mut last_d = 0u64;
     for tick in 1..=horizon {
         while next < evs.len() && evs[next].0 < tick {
             q.push_back((evs[next].1, 0));
@@ -900,21 +1210,31 @@ fn model_backlog(d: u64, h: u64, evs: &[(u64, QE)], horizon: u64) -> (Vec<TOut>,
                         outs.push(TOut { at: tick, down: false, key: k });
                     }
                 }
-                QE::P(_) => match deadline {
-                    Some(_) => {
-                        deadline = Some(d);
-                        st.rearms += 1;
-                        if vpress_queued_at.is_some() {
-                            st.rearm_before_press += 1;
+                QE::P(k) => {
+                    let nd = d[(k & 1) as usize];
+                    match deadline {
+                        Some(left) => {
+                            deadline = Some(nd);
+                            st.rearms += 1;
+                            if vpress_queued_at.is_some() {
+                                st.rearm_before_press += 1;
+                            }
+                            if nd != last_d {
+                                st.rearms_other_duration += 1;
+                            }
+                            if nd < left {
+                                st.rearms_shortening += 1;
+                            }
+                        }
+                        None => {
+                            q.push_back((QE::VPress, 0));
+                            vpress_queued_at = Some(tick);
+                            deadline = Some(nd);
+                            st.episodes += 1;
                         }
                     }
-                    None => {
-                        q.push_back((QE::VPress, 0));
-                        vpress_queued_at = Some(tick);
-                        deadline = Some(d);
-                        st.episodes += 1;
-                    }
-                },
+                    last_d = nd;
+                }
                 QE::R(_) => {}
                 QE::VPress => {
                     if let Some(t0) = vpress_queued_at.take() {
@@ -925,6 +1245,7 @@ fn model_backlog(d: u64, h: u64, evs: &[(u64, QE)], horizon: u64) -> (Vec<TOut>,
                     outs.push(TOut { at: tick, down: true, key: 0 });
                 }
                 QE::VRelease => outs.push(TOut { at: tick, down: false, key: 0 }),
+                _ => {}
             }
         }
         if let Some(x) = deadline {
@@ -1008,10 +1329,16 @@ fn backlog_scen(mut idx: u64, nmax: u32) -> Option<Vec<(u64, u8)>> {
 /// seeded part: longer toggle scenarios with a wider choice of durations, tap-hold timeouts and gaps
 fn backlog_random(rng: &mut crate::core::rng::Rng) -> (ConfB, Vec<(u64, u8)>) {
     let d = *rng.pick(&[1u32, 1, 2, 2, 3, 3, 4, 5, 8, 12]);
+    // every other configuration has a second action with another duration on the same virtual key
+    let d2 = if rng.chance(1, 2) { *rng.pick(&[1u32, 2, 3, 4, 5, 8, 12, 20]) } else { d };
     let h = *rng.pick(&[4u32, 6, 15, 30]);
     let n = rng.range(4, 11);
     let du = d as u64;
-    let gaps: Vec<u64> = vec![0, 0, 0, 0, 1, 1, 2, 3, du.saturating_sub(1), du, du + 1, h as u64 - 1, h as u64 + 1, h as u64 + du + 8];
+    let d2u = d2 as u64;
+    let mut gaps: Vec<u64> = vec![0, 0, 0, 0, 1, 1, 2, 3, du.saturating_sub(1), du, du + 1, h as u64 - 1, h as u64 + 1, h as u64 + du.max(d2u) + 8];
+    if d2 != d {
+        gaps.extend([d2u.saturating_sub(1), d2u, d2u + 1, du.abs_diff(d2u)]);
+    }
     let mut steps = vec![];
     // bursts: after a step with gap 0 the next one is likely to have gap 0 as well
     let mut burst = false;
@@ -1027,7 +1354,7 @@ fn backlog_random(rng: &mut crate::core::rng::Rng) -> (ConfB, Vec<(u64, u8)>) {
         let k = *rng.pick(&[0u8, 0, 0, 1, 1, 2, 2, 2, 3, 3]);
         steps.push((g, k));
     }
-    (ConfB { d, h }, steps)
+    (ConfB { d, d2, h }, steps)
 }
 
 fn run_backlog(c: &ConfB, evs: &[(u64, QE)], horizon: u64, nm: &[String; 4]) -> (Vec<TOut>, Vec<String>, Vec<Ev>, bool, String) {
@@ -1129,21 +1456,23 @@ enum CaseKind {
 fn backlog_one(out: &mut CaseOut, c: &ConfB, steps: &[(u64, u8)], reported: &mut std::collections::BTreeSet<String>, may_sample: bool) {
     let nm = [code_name(osc("1")), code_name(osc(BKEYS[2])), code_name(osc(B_TAP_OUT)), code_name(osc(B_HOLD_OUT))];
     let evs = backlog_events(steps);
-    let horizon = evs.last().map(|e| e.0).unwrap_or(0) + 2 * c.h as u64 + 3 * c.d as u64 + 40;
-    let (exp, st) = model_backlog(c.d as u64, c.h as u64, &evs, horizon);
+    let horizon = evs.last().map(|e| e.0).unwrap_or(0) + 2 * c.h as u64 + 3 * c.d.max(c.d2) as u64 + 40;
+    let (exp, st) = model_backlog([c.d as u64, c.d2 as u64], c.h as u64, &evs, horizon);
     let (obs, raw, hist, ok, state) = run_backlog(c, &evs, horizon, &nm);
     out.inc("hold_queued_scenarios");
     out.count("hold_queued_episodes", st.episodes);
-    if c.d <= 3 {
+    if c.d.max(c.d2) <= 3 {
         out.count("hold_queued_episodes_duration_1_to_3", st.episodes);
     }
-    if c.d == 1 {
+    if c.d == 1 && c.d2 == 1 {
         out.count("hold_queued_episodes_duration_1", st.episodes);
     }
     out.count("hold_queued_rearms", st.rearms);
+    out.count("hold_queued_rearms_by_key_with_other_duration", st.rearms_other_duration);
+    out.count("hold_queued_rearms_shortening_the_time_left", st.rearms_shortening);
     out.count("hold_queued_press_waited_2_or_more_ticks", st.press_waited);
     out.count("hold_queued_expired_before_press_processed", st.expired_before_press);
-    if c.d >= 2 {
+    if c.d.min(c.d2) >= 2 {
         out.count("hold_queued_expired_before_press_processed_duration_2_or_more", st.expired_before_press);
     }
     out.count("hold_queued_expired_behind_undecided_tap_hold", st.expired_behind_tap_hold);
@@ -1174,8 +1503,36 @@ fn backlog_random_chunks(ctx: &Ctx) -> (u64, u64) {
     ctx.tier.sel((16, 512), (64, 2048))
 }
 
-fn timed_n(ctx: &Ctx) -> u32 {
-    ctx.tier.sel(2, 3)
+/// thorough tier: scenarios with three further taps beyond this many per configuration are sampled
+/// with a fixed stride (everything up to two further taps and the sweep is always complete)
+const CAP_T3: u64 = 250_000;
+
+fn timed_depth3_space(c: &ConfT) -> u64 {
+    let (gaps, nholds, nfirst) = timed_dims(c);
+    nfirst * (gaps.len() as u64 * 3 * nholds).pow(3)
+}
+
+fn timed_total(ctx: &Ctx, c: &ConfT) -> u64 {
+    timed_space(c, 2) + ctx.tier.sel(0, timed_depth3_space(c).min(CAP_T3))
+}
+
+/// scenario number i of a timed configuration: first everything with up to two further taps, then
+/// the hold-for-duration sweep, then (thorough) the scenarios with exactly three further taps
+fn timed_pick(c: &ConfT, i: u64) -> Option<Vec<(u64, QE)>> {
+    let s2 = timed_space(c, 2);
+    if i < s2 {
+        return timed_scen(c, i, 2);
+    }
+    let s3 = timed_depth3_space(c);
+    let j = i - s2;
+    let sidx = if s3 > CAP_T3 { j.wrapping_mul(STRIDE) % s3 } else { j };
+    let (gaps, nholds, nfirst) = timed_dims(c);
+    let per = gaps.len() as u64 * 3 * nholds;
+    let idx = (1 + per + per * per + sidx / nfirst) * nfirst + sidx % nfirst;
+    if idx >= timed_taps_space(c, 3) {
+        return None;
+    }
+    timed_scen(c, idx, 3)
 }
 
 fn layout(ctx: &Ctx) -> Vec<CaseKind> {
@@ -1189,7 +1546,7 @@ fn layout(ctx: &Ctx) -> Vec<CaseKind> {
         }
     }
     for (ci, c) in configs_t().iter().enumerate() {
-        let tot = timed_space(c, timed_n(ctx));
+        let tot = timed_total(ctx, c);
         let mut s = 0;
         while s < tot {
             v.push(CaseKind::Timed(ci, s, (s + 512).min(tot)));
@@ -1223,7 +1580,7 @@ impl Check for C18Check {
         match layout(ctx).get(idx as usize) {
             Some(CaseKind::Ops(ci, a, b)) => json!({"config": configs_a()[*ci].text(), "histories": format!("operation histories #{a}..#{b}")}),
             Some(CaseKind::Timed(ci, a, b)) => json!({"config": configs_t()[*ci].text(), "scenarios": format!("timed scenarios #{a}..#{b}")}),
-            Some(CaseKind::Backlog(di, a, b)) => json!({"config": ConfB { d: B_DS[*di], h: B_H }.text(), "scenarios": format!("queued hold-for-duration toggle scenarios #{a}..#{b}")}),
+            Some(CaseKind::Backlog(di, a, b)) => json!({"config": ConfB { d: B_DS[*di].0, d2: B_DS[*di].1, h: B_H }.text(), "scenarios": format!("queued hold-for-duration toggle scenarios #{a}..#{b}")}),
             Some(CaseKind::BacklogRandom(ch, n)) => json!({"kind": format!("{n} seeded queued hold-for-duration scenarios, chunk {ch}")}),
             _ => json!({"kind": "on-idle after a busy period"}),
         }
@@ -1234,7 +1591,7 @@ impl Check for C18Check {
         match kind {
             CaseKind::BusyIdle => busy_idle_case(&mut out),
             CaseKind::Backlog(di, a, b) => {
-                let c = ConfB { d: B_DS[di], h: B_H };
+                let c = ConfB { d: B_DS[di].0, d2: B_DS[di].1, h: B_H };
                 let mut reported: std::collections::BTreeSet<String> = Default::default();
                 for i in a..b {
                     let Some(steps) = backlog_scen(i, backlog_n(ctx)) else { continue };
@@ -1318,13 +1675,14 @@ impl Check for C18Check {
             CaseKind::Timed(ci, a, b) => {
                 let confs = configs_t();
                 let c = &confs[ci];
-                let nm = (code_name(osc("1")), code_name(osc(TKEYS[2])));
+                let nm = [code_name(osc("1")), code_name(osc(TKEYS[2])), code_name(osc(T_VK2_OUT))];
                 let kind = if c.idle { "on-idle" } else { "hold-for-duration" };
+                let (taps, upto2) = (timed_taps_space(c, 2), timed_space(c, 2));
                 let mut reported: std::collections::BTreeSet<String> = Default::default();
                 for i in a..b {
-                    let Some(evs) = timed_scen(c, i, timed_n(ctx)) else { continue };
-                    let horizon = evs.last().map(|e| e.0).unwrap_or(0) + 3 * c.d as u64 + 30;
-                    let (exp, st) = if c.idle { model_idle(c.d as u64, &evs, horizon) } else { model_hfd(c.d as u64, &evs, horizon) };
+                    let Some(evs) = timed_pick(c, i) else { continue };
+                    let horizon = evs.last().map(|e| e.0).unwrap_or(0) + 3 * c.d.max(c.d2) as u64 + 30;
+                    let (exp, st) = if c.idle { model_idle(c.d as u64, &evs, horizon, c.order, c.second) } else { model_hfd([c.d as u64, c.d2 as u64], &evs, horizon) };
                     let (obs, raw, hist, ok) = run_timed(c, &evs, &nm);
                     out.inc("timed_scenarios");
                     out.inc(&format!("timed_scenarios_{kind}"));
@@ -1332,24 +1690,71 @@ impl Check for C18Check {
                     out.count("hold_episodes", st.episodes);
                     out.count("idle_firings", st.idle_firings);
                     out.count("idle_countdowns_interrupted", st.idle_prevented);
-                    out.tag(format!("{}|{}|{}|{}|{}", c.label(), evs.len(), st.rearms, st.episodes, st.idle_firings));
+                    if c.idle {
+                        if c.order == Order::PredFirst {
+                            out.inc("idle_scenarios_predicate_then_event_then_tick");
+                            out.count("idle_count_restarted_by_release_of_non_normal_key_loop_order", st.idle_restart_release_non_normal);
+                            out.count("idle_firings_after_release_of_held_non_normal_key_loop_order", st.idle_firings_after_held_non_normal_release);
+                        } else {
+                            out.inc("idle_scenarios_event_then_predicate_then_tick");
+                        }
+                        out.count("idle_count_restarted_by_release_of_non_normal_key", st.idle_restart_release_non_normal);
+                        if c.second == Second::Same {
+                            out.count("idle_count_restarted_by_release_of_on_idle_key", st.idle_restart_release_non_normal);
+                        } else {
+                            out.count("idle_count_restarted_by_release_of_on_idle_key", st.idle_restart_release_non_normal - st.idle_restart_release_second);
+                            out.count(&format!("idle_count_restarted_by_release_of_{}", c.second.name()), st.idle_restart_release_second);
+                        }
+                        out.count("idle_count_restarted_by_press_of_non_normal_key", st.idle_restart_press_non_normal);
+                        out.count("idle_count_restarted_by_os_repeat", st.idle_restart_repeat);
+                        out.count("idle_firings_after_release_of_held_non_normal_key", st.idle_firings_after_held_non_normal_release);
+                    } else {
+                        if i >= taps && i < upto2 {
+                            out.inc("hold_sweep_scenarios");
+                        }
+                        if c.mixed() {
+                            out.inc("hold_scenarios_two_durations_on_one_virtual_key");
+                            out.count("hold_rearms_by_key_with_other_duration", st.rearms_other_duration);
+                            out.count("hold_rearms_shortening_the_time_left", st.rearms_shortening);
+                            out.count("hold_rearms_lengthening_the_time_left", st.rearms_lengthening);
+                        }
+                    }
+                    out.tag(format!("{}|{}|{}|{}|{}|{}|{}", c.label(), evs.len(), st.rearms, st.episodes, st.idle_firings, st.rearms_shortening, st.idle_restart_release_non_normal + st.idle_restart_repeat));
                     let mut sig: Option<(String, String)> = None;
                     if !ok {
                         sig = Some((format!("C18:{kind}:stuck"), "a key stayed down or kanata did not become idle".into()));
                     } else if obs != exp {
                         let cnt = |v: &[TOut], down: bool| v.iter().filter(|o| o.key == 0 && o.down == down).count();
                         let same_order = obs.len() == exp.len() && obs.iter().zip(&exp).all(|(x, y)| x.down == y.down && x.key == y.key);
-                        let class = if obs.iter().any(|o| o.key == 9) {
-                            "unexpected-output"
+                        let mut class: String = if obs.iter().any(|o| o.key == 9) {
+                            "unexpected-output".into()
                         } else if cnt(&obs, true) > cnt(&exp, true) {
-                            if c.idle { "fired-too-often-or-early" } else { "extra-events-on-retrigger" }
+                            if c.idle { "fired-too-often-or-early" } else { "extra-events-on-retrigger" }.into()
                         } else if cnt(&obs, true) < cnt(&exp, true) {
-                            if c.idle { "not-fired" } else { "missing-press" }
+                            if c.idle { "not-fired" } else { "missing-press" }.into()
                         } else if same_order {
-                            "timing"
+                            // same events, different ticks: name the first one that differs
+                            match obs.iter().zip(&exp).find(|(x, y)| x.at != y.at) {
+                                Some((x, y)) if c.idle && x.key == 0 && x.down => {
+                                    // the input event that preceded the observed firing
+                                    let before = evs.iter().filter(|e| e.0 + 1 < x.at.min(y.at)).last().map(|e| match e.1 {
+                                        QE::R(2) | QE::P(2) => "plain-key-event",
+                                        QE::R(_) => "release-of-non-normal-key",
+                                        QE::P(_) => "press-of-non-normal-key",
+                                        QE::Rep(_) => "os-repeat",
+                                        _ => "event",
+                                    });
+                                    format!("{}:after-{}", if x.at < y.at { "fired-early" } else { "fired-late" }, before.unwrap_or("nothing"))
+                                }
+                                Some((x, y)) if !c.idle && x.key == 0 && !x.down => if x.at < y.at { "released-early" } else { "released-late" }.into(),
+                                _ => "timing".into(),
+                            }
                         } else {
-                            "order"
+                            "order".into()
                         };
+                        if c.mixed() {
+                            class.push_str(":two-durations-on-one-virtual-key");
+                        }
                         sig = Some((format!("C18:{kind}:{class}"), "the OS key stream differs from the model's".into()));
                     }
                     if let Some((sig, what)) = sig {
@@ -1357,7 +1762,7 @@ impl Check for C18Check {
                             out.violate(
                                 sig,
                                 format!("{}: {what}", c.label()),
-                                json!({"config": c.text(), "history": render_hist(&hist), "observed": raw, "expected": render_touts(&exp, &nm), "note": "the blocking predicate is consulted before every tick, as the processing loop does"}),
+                                json!({"config": c.text(), "history": render_hist(&hist), "observed": raw, "expected": render_touts(&exp, &nm), "note": if c.order == Order::PredFirst { "every millisecond is driven like one iteration of the processing loop: blocking predicate (it advances the idle count), the event if one is due, the tick" } else { "the blocking predicate is consulted between the event of a millisecond and its tick (event handled while the loop was spinning)" }}),
                             );
                         }
                     }
@@ -1370,7 +1775,7 @@ impl Check for C18Check {
         out
     }
     fn rule(&self) -> String {
-        "case = (a) one configuration (virtual key sets {key}, {key,key}, {key,layer-while-held}, {key,layer,macro}; trigger path direct fake-key call / on-press / on-release / legacy on-press-fakekey / legacy on-release-fakekey / macro item / defseq completion) and a chunk of ALL operation histories up to N operations over every (virtual key, press|release|tap|toggle) pair (macro keys: tap only); quick N=5 (4 for the larger sets on the slower paths), thorough N=7 (6); every history is compared with the reference model after every operation (OS key state, active layer) and as a whole (OS key stream, plus a probe key press showing the layer through the OS stream); the model is the same for every path, so equal effect across paths is implied; (b) hold-for-duration D in {10,40} and on-idle D in {10,40} (+ legacy form): a first activation followed by up to 2 (quick) / 3 (thorough) further taps of the same key, a second key with the same action or a plain key, at every combination of distances around D (D-2..D+2, small, 2D) and two hold lengths, compared tick by tick with the model while the blocking predicate is consulted before every tick; (c) on-idle armed before a long macro: fires exactly once and not before D ticks after the macro's last output. (d) hold-for-duration whose own press is still waiting in the queue: D in {1,2,3,5} with two keys carrying the action, a plain key and a tap-hold key (timeout 6); ALL toggle scenarios (each step presses the key if it is up, releases it if it is down) of up to 4 (quick) / 5 (thorough) steps over the 4 keys and the distances {0,1,2,7} to the previous event (0 = same millisecond, 7 = longer than every D and than the tap-hold timeout), plus seeded longer scenarios (4..10 steps, D in {1,2,3,4,5,8,12}, tap-hold timeout in {4,6,15,30}, bursts of same-millisecond events); the virtual key must come down once per episode and go up again D after the latest activation was processed, compared tick by tick with the queue model (one queued event consumed per tick, none while the tap-hold is undecided or during the pause after its decision; the virtual key's press and release wait behind everything queued before them), and in plain form: every press of the virtual key is followed by its release. Non-trivial = history/scenario ran and was judged; distinct = (configuration, first four operations) / (configuration, events, re-arms, episodes, firings) / (configuration, events, same-millisecond events, episodes, re-arms, expiries before the press was processed, tap-hold outcomes).".into()
+        "case = (a) one configuration (virtual key sets {key}, {key,key}, {key,layer-while-held}, {key,layer,macro}; trigger path direct fake-key call / on-press / on-release / legacy on-press-fakekey / legacy on-release-fakekey / macro item / defseq completion) and a chunk of ALL operation histories up to N operations over every (virtual key, press|release|tap|toggle) pair (macro keys: tap only); quick N=5 (4 for the larger sets on the slower paths), thorough N=7 (6); every history is compared with the reference model after every operation (OS key state, active layer) and as a whole (OS key stream, plus a probe key press showing the layer through the OS stream); the model is the same for every path, so equal effect across paths is implied; (b) hold-for-duration with durations (key 0, key 1 on the SAME virtual key) in {(10,10),(40,40),(40,10),(10,40),(15,12)} and on-idle D=10 (second key: the same on-idle action / layer-while-held / XX / (on-release tap-vkey k2)), D=40 (same action; layer-while-held in loop order) and the legacy form (D=10), each on-idle configuration driven in two orders per millisecond: blocking predicate - event - tick (an iteration of the real processing loop) and event - blocking predicate - tick: a first activation followed by ALL sequences of up to 2 further taps (thorough: plus those with 3, complete or a fixed-stride sample of 250 000 per configuration) of the same key, the second key or a plain key, at every combination of distances (hold-for-duration: press-to-press 2, 3, x-2..x+2 for each duration x, L-S-1..L-S+1, 2L; on-idle: release-to-press 3, D-1..D+2, 2D+5) and hold lengths (hold-for-duration 1, 4; on-idle: first tap 1, D/2, further taps 1, 4, D/2, D-2 and 2D+3 - the last with OS repeat events every D/2 for keys that are not normal keys), plus for hold-for-duration the complete sweep: activation by key a, second activation by key b at EVERY distance 2..max(D)+3, optionally a third tap of any of the three keys at a distance around S, L, L-S; compared tick by tick with the model (hold-for-duration: up d[k] after the latest activation made by key k; on-idle: the idle count restarts at every input event - press, release, OS repeat - and while something is queued or an output key is down); (c) on-idle armed before a long macro: fires exactly once and not before D ticks after the macro's last output. (d) hold-for-duration whose own press is still waiting in the queue: (D on key 0, D on key 1) in {(1,1),(2,2),(3,3),(5,5),(5,2),(2,5)} with two keys carrying the action for one virtual key, a plain key and a tap-hold key (timeout 6); ALL toggle scenarios (each step presses the key if it is up, releases it if it is down) of up to 4 (quick) / 5 (thorough) steps over the 4 keys and the distances {0,1,2,7} to the previous event (0 = same millisecond, 7 = longer than every D and than the tap-hold timeout), plus seeded longer scenarios (4..10 steps, D in {1,2,3,4,5,8,12}, in half of them a second duration from {1,2,3,4,5,8,12,20} on the second key, tap-hold timeout in {4,6,15,30}, bursts of same-millisecond events); the virtual key must come down once per episode and go up again D after the latest activation was processed, compared tick by tick with the queue model (one queued event consumed per tick, none while the tap-hold is undecided or during the pause after its decision; the virtual key's press and release wait behind everything queued before them), and in plain form: every press of the virtual key is followed by its release. Non-trivial = history/scenario ran and was judged; distinct = (configuration, first four operations) / (configuration, events, re-arms, episodes, firings, re-arms that shorten the time left, idle restarts by release/repeat) / (configuration, events, same-millisecond events, episodes, re-arms, expiries before the press was processed, tap-hold outcomes).".into()
     }
     fn assumptions(&self) -> Vec<String> {
         vec![
@@ -1378,7 +1783,9 @@ impl Check for C18Check {
             "a virtual key with a macro action is only tapped (a macro cannot be held; the guide's press/toggle wording has no meaning for it)".into(),
             "layer-while-held virtual keys are observed through Layout::current_layer after every operation and through a probe key in the OS stream at the end of each history".into(),
             "timed forms: processing discipline of DESIGN appendix A (one queued event per tick; virtual key events are queued behind pending physical events); hold-for-duration releases D ticks after the tick of the latest activation; on-idle fires in the tick in which D idle loop iterations have been counted, any input resets the count".into(),
-            "on-idle is only exercised with tap actions and re-armed only after it fired".into(),
+            "on-idle is only exercised with tap actions; it is re-armed by pressing its key again, before or after it fired".into(),
+            "on-idle, idle measurement: every input event (press, release, OS repeat, of any key) restarts the idle count, and the count does not run while an event is queued or an output key (plain key, virtual key) is down. Whether a HELD key whose held state is not a key (on-idle key, layer-while-held, XX, custom-action key) keeps kanata busy is not decided by the guide (the code says it does not, so on-idle can fire during such a hold): such keys are only held for less than D ticks, or longer with OS repeats arriving every D/2, where both readings give the same expectation. One input event per millisecond in these scenarios; each millisecond is one loop iteration, driven either as blocking predicate - event - tick (the loop's own order) or event - blocking predicate - tick (event handled less than 1 ms after the previous tick); ticks are run even where the loop would block (before the first on-idle activation), (that skipping them changes nothing is the subject of C07)".into(),
+            "hold-for-duration with two durations on one virtual key: the guide's 'the time will be reset' is read as reset to the duration stated by the action that re-triggered (the statement's 'stated time since its most recent activation')".into(),
             "hold-for-duration with queued events (part d): events without a tick between them are delivered in the same millisecond in the order given; the activation counts from the tick in which the key's press is processed (not from its arrival), so a press that waited in the queue shortens the visible hold time and, when the countdown ends before the queued press was processed, the key is pressed and released in consecutive ticks; the tap-hold key follows DESIGN appendix A (tap iff its release is seen before the timeout, time spent waiting in the queue deducted; input processing pauses rapid-event-delay = 5 ticks after a tap decision, not after a timeout); at most 16 events are ever queued (keyberon's queue holds 32)".into(),
             "the TCP path is represented by the function the TCP server calls (handle_fakekey_action); no socket is opened".into(),
         ]
@@ -1399,6 +1806,21 @@ impl Check for C18Check {
             ("hold_episodes", 1_000),
             ("idle_firings", 1_000),
             ("idle_countdowns_interrupted", 200),
+            ("hold_scenarios_two_durations_on_one_virtual_key", 15_000),
+            ("hold_sweep_scenarios", 8_000),
+            ("hold_rearms_by_key_with_other_duration", 5_000),
+            ("hold_rearms_shortening_the_time_left", 2_000),
+            ("hold_rearms_lengthening_the_time_left", 5_000),
+            ("idle_scenarios_predicate_then_event_then_tick", 50_000),
+            ("idle_scenarios_event_then_predicate_then_tick", 50_000),
+            ("idle_count_restarted_by_release_of_non_normal_key_loop_order", 80_000),
+            ("idle_count_restarted_by_release_of_on_idle_key", 100_000),
+            ("idle_count_restarted_by_release_of_layer_while_held_key", 3_000),
+            ("idle_count_restarted_by_release_of_no_op_key", 3_000),
+            ("idle_count_restarted_by_release_of_custom_action_key", 3_000),
+            ("idle_count_restarted_by_press_of_non_normal_key", 40_000),
+            ("idle_count_restarted_by_os_repeat", 50_000),
+            ("idle_firings_after_release_of_held_non_normal_key_loop_order", 30_000),
             ("idle_firings_after_busy_period", 4),
             ("hold_queued_scenarios", 50_000),
             ("hold_queued_scenarios_seeded", 4_000),
@@ -1411,6 +1833,8 @@ impl Check for C18Check {
             ("hold_queued_expired_behind_undecided_tap_hold", 2_000),
             ("hold_queued_rearm_before_press_processed", 2_000),
             ("hold_queued_rearms", 5_000),
+            ("hold_queued_rearms_by_key_with_other_duration", 3_000),
+            ("hold_queued_rearms_shortening_the_time_left", 1_500),
         ]
     }
     fn exhaustive(&self, _ctx: &Ctx) -> bool {
